@@ -56,7 +56,8 @@ theorem storeRecentRun_eq (s : State) (e r : Nat) :
 
 /-- The state after each message, written out (repaired code). -/
 theorem step_start_eq (s : State) (e r : Nat) (hreg : (s.eng e).registered = true) :
-    (∀ x, (step true s (.start e r)).1.eng x = if x = e then { s.eng e with run := some r } else s.eng x) ∧
+    (∀ x, (step true s (.start e r)).1.eng x =
+      if x = e then { s.eng e with run := some r, recentEngineRun := some (some r) } else s.eng x) ∧
     (step true s (.start e r)).1.plotLogs = addOnce s.plotLogs e r ∧
     (step true s (.start e r)).1.recentRuns =
       (match (s.eng e).run with
@@ -68,20 +69,16 @@ theorem step_start_eq (s : State) (e r : Nat) (hreg : (s.eng e).registered = tru
   | none => simp [createPlotLog_eq, setEng]
   | some q =>
     by_cases hq : q = r
-    · subst hq
-      simp only [if_true, createPlotLog_eq]
-      refine ⟨?_, trivial, trivial⟩
-      intro x
-      by_cases hx : x = e
-      · subst hx
-        cases hE : s.eng x
-        rw [hE] at hrun
-        simp_all
-      · simp [hx]
+    · simp [hq, createPlotLog_eq, setEng]
     · simp [hq, createPlotLog_eq, storeRecentRun_eq, setEng]
 
 theorem step_stop_eq (s : State) (e r : Nat) (hreg : (s.eng e).registered = true) :
-    (∀ x, (step true s (.stop e r)).1.eng x = if x = e then { s.eng e with run := none } else s.eng x) ∧
+    (∀ x, (step true s (.stop e r)).1.eng x =
+      if x = e then
+        (match (s.eng e).run with
+         | some _ => { s.eng e with run := none, recentEngineRun := some none }
+         | none => s.eng e)
+      else s.eng x) ∧
     (step true s (.stop e r)).1.plotLogs = s.plotLogs ∧
     (step true s (.stop e r)).1.recentRuns =
       (match (s.eng e).run with
@@ -94,10 +91,7 @@ theorem step_stop_eq (s : State) (e r : Nat) (hreg : (s.eng e).registered = true
     refine ⟨?_, rfl, rfl⟩
     intro x
     by_cases hx : x = e
-    · subst hx
-      cases hE : s.eng x
-      rw [hE] at hrun
-      simp_all
+    · subst hx; simp
     · simp [hx]
   | some q => simp [storeRecentRun_eq, setEng]
 
@@ -309,17 +303,18 @@ theorem step_mono (g : Bool) (s : State) (op : Op) :
     simp only [step]
     split
     · simp
-    · split
-      · have := hc (setEng s e { s.eng e with run := some r }) e r
-        exact ⟨this.1, by rw [this.2]; simp [setEng]⟩
+    · simp only [setEng]
+      split
+      · have := hc s e r
+        exact ⟨this.1, by rw [this.2]; simp⟩
       · split
         · have := hc s e r
           exact ⟨this.1, by rw [this.2]; simp⟩
         · rename_i q _ _
-          have h1 := hc (setEng (storeRecentRun g s e q) e { s.eng e with run := some r }) e r
+          have h1 := hc (storeRecentRun g s e q) e r
           have h2 := hs s e q
-          refine ⟨fun x hx => h1.1 x (by simp only [setEng]; rw [h2.2]; exact hx), ?_⟩
-          rw [h1.2]; simp only [setEng]; exact h2.1
+          refine ⟨fun x hx => h1.1 x (by rw [h2.2]; exact hx), ?_⟩
+          rw [h1.2]; exact h2.1
   | stop e r =>
     simp only [step]
     split
